@@ -1,12 +1,14 @@
 ---------------------------- MODULE SessionDriver ----------------------------
 (* Bounded nondeterministic driver of Session.tla shared by MCSession and GenSession *)
 EXTENDS Session
-CONSTANTS Acts,       \* subset of {"Create","Activate","Close","Service","Discovery","ChannelChange","TimePasses"}
+CONSTANTS Acts,       \* subset of {"Create","Activate","Close","Service","Discovery","ChannelChange","Tick"}
           ActKinds,   \* identity token kinds used by ActivateSession, subset of {"anon","user","userenc","x509"}
           SvcKinds,   \* subset of {"Read","Browse","Write","CreateSub"}
           Creds,      \* subset of {"good","bad"}
           ExtraToks,  \* subset of {Forged, Null}
-          Warm,       \* TRUE: every history starts with CreateSession and a successful anonymous ActivateSession on connection 1
+          Timeouts,   \* session timeouts CreateSession may ask for, subset of {0, 2} (0 = never)
+          Dts,        \* time steps, subset of {1, 2, 3}
+          Warm,       \* TRUE: every history starts with CreateSession (timeout 2) and a successful anonymous ActivateSession on connection 1
           MaxDepth
 VARIABLES depth
 DInit == Init /\ depth = 0
@@ -18,14 +20,14 @@ Gens(t, kind) == IF kind \in NonceKinds /\ t \in Slots THEN 0..sess[t].gen ELSE 
 
 DNext ==
   /\ depth < MaxDepth /\ depth' = depth + 1
-  /\ IF Warm /\ depth < 2 THEN (IF depth = 0 THEN CreateSession(1) ELSE ActivateSession(1, 1, "anon", "good", 0)) ELSE
-     \/ "Create" \in Acts /\ \E c \in Conns : CreateSession(c)
+  /\ IF Warm /\ depth < 2 THEN (IF depth = 0 THEN CreateSession(1, 2) ELSE ActivateSession(1, 1, "anon", "good", 0)) ELSE
+     \/ "Create" \in Acts /\ \E c \in Conns, tm \in Timeouts : CreateSession(c, tm)
      \/ "Activate" \in Acts /\ \E c \in Conns, t \in Toks, k \in ActKinds, cr \in Creds : \E g \in Gens(t, k) :
           ActivateSession(c, t, k, cr, g)
      \/ "Close" \in Acts /\ \E c \in Conns, t \in Toks, d \in BOOLEAN : CloseSession(c, t, d)
      \/ "Service" \in Acts /\ \E c \in Conns, k \in SvcKinds, t \in Toks : Service(c, k, t)
      \/ "Discovery" \in Acts /\ \E c \in Conns, k \in {"GetEndpoints", "FindServers"} : Discovery(c, k)
      \/ "ChannelChange" \in Acts /\ \E c \in Conns : ChannelChange(c)
-     \/ "TimePasses" \in Acts /\ \E t \in Slots : TimePasses(t)
+     \/ "Tick" \in Acts /\ \E d \in Dts : Tick(d)
 Done == depth = MaxDepth
 =============================================================================
